@@ -110,7 +110,7 @@ def run(ctx):
     rep = ctx.rep
     rng = Rng(ctx.seed, 19)
     items = []
-    for i in range(ctx.budget(300, 12000)):
+    for i in range(ctx.budget(300, 50000)):
         r = rng.fork(i)
         text = r.choice(TEXTS)
         cfg = r.choice([None, 'clean_qq', 'segment', 'sec_colon_cautious'])
